@@ -11,8 +11,7 @@ import GaeaVerif.Model.C10Config
     - every base rule of the loaded router lists each sub table
       once                                                        duplicate-sub-table
     - tableToSlice is defined exactly on the listed tables        table-slice-map-mismatch
-    - and maps into the rule's slice list                         slice-index-out-of-range,
-                                                                  global-slice-index-out-of-range
+    - and maps into the rule's slice list                         slice-index-out-of-range
     - whose members are slices of the namespace                   unknown-slice
     - FindTableIndex of a hash/mod/range/mycat rule returns a
       listed table (or an error) for every probe key              placement-unlisted-table, placement-panic
@@ -174,7 +173,7 @@ def judgeRule (names : List Str) (r : ObsRule) : Option String :=
   if !adjacentDistinct sidx then some "duplicate-sub-table"
   else if sidx != sortInts (r.t2s.map (·.1)) then some "table-slice-map-mismatch"
   else if !(r.t2s.all fun kv => decide (0 ≤ kv.2) && decide (kv.2 < (r.slices.length : Int))) then
-    some (if rtOf r.typ == .global then "global-slice-index-out-of-range" else "slice-index-out-of-range")
+    some "slice-index-out-of-range"
   else if !(r.slices.all fun s => names.any (· = s)) then some "unknown-slice"
   else none
 
